@@ -1117,10 +1117,24 @@ def targeted_search(cx, mismatches, budget=320):
                         last = "%s@%d" % (op, lst.index(ob[op]))
                     plan.append(last)
                     cfg = "P=%d unsafe=%s ext=%s buf=%s mask=0 rate=0000000000000000" % (p, h.get("unsafe", "0"), h.get("ext", "0"), h.get("buf", "0"))
-                    cands.append((cfg, plan))
+                    # a canonical state (one in which the opcode's guard is known to hold) goes before the probed ones
+                    cands.append((cfg, plan, (op, kind), 0 if (kind == "effect" and stack == CANON.get(op) and stack != stack0) else 1))
                     break
     # a depth drift is often re-absorbed by the collapse phase's TUPLE; draining the stack with fixed-arity
     # POPs (which treat a MARK as an ordinary element) exposes it
+    # shortest plans first, and no more candidates than the budget can take through all four drain rounds
+    # ... spread over the (opcode, guard/effect) pairs the disagreements concern: per pair the shortest plans, pairs in turn
+    groups = {}
+    for cfg, plan, gk, prio in sorted(cands, key=lambda cp: (cp[3], len(cp[1]))):
+        groups.setdefault(gk, []).append((cfg, plan))
+    picked = []
+    depth_i = 0
+    while len(picked) < max(1, budget // 4) and any(depth_i < len(v) for v in groups.values()):
+        for gk in sorted(groups):
+            if depth_i < len(groups[gk]) and len(picked) < max(1, budget // 4):
+                picked.append(groups[gk][depth_i])
+        depth_i += 1
+    cands = picked
     for drain in ([], ["Pop"], ["Pop", "Pop"], ["Pop", "Pop", "Pop"]):
         # one driver call turns all plans of this round into fuzzer bytes
         reqs = ["steer %s plan=%s" % (cfg, ",".join(plan + drain)) for cfg, plan in cands]
